@@ -68,6 +68,11 @@ LITERAL_PROGRAMS = {
     'two_literals': 'char *p; char *q; void f(char *x, char *y) { p = x; q = y; } void main() { f("x", "yy"); }',
     'three_literals': 'char *p; void f(char *x, char *y, char *z) { p = x; p = y; p = z; } void main() { f("a", "bb", "ccc"); f("dddd", "e", "ff"); }',
     'interrupts': 'char a, b; void interrupt nmi() { a++; } void interrupt irq() { b++; } void t() { a = b; } void main() { t(); }',
+    # names the compiler generates next to names of the program (insertion ranks must stay distinct)
+    'local_suffix': 'void main() { { char x; x = 1; } { char x_0; char x; x = 2; x_0 = 3; char z; z = 4; } }',
+    'local_suffix2': 'void main() { { char x; x = 1; } { char x; x = 2; } { char x_1; char x; x = 3; x_1 = 4; char z; z = 5; } }',
+    'literal_calls': 'char c; char f(char *p) { return p[Y]; } char g(char *p) { return p[Y]; } void main() { c = f("ab") + g("cd"); c = f(("ef")); }',
+    'many_interrupts': 'char a, b, c; void tick() { a++; } void tock() { b++; } void tack() { c++; } void interrupt nmi() { tick(); } void interrupt irq() { tock(); } void interrupt brk() { tack(); } void main() { a = 1; }',
 }
 
 
